@@ -1,6 +1,7 @@
 import Driver.Core
 import Replicon.Model.Wire
 import Replicon.Model.Tick
+import Replicon.Model.MutateTicks
 import Replicon.Model.Visibility
 import Replicon.Model.Packing
 import Replicon.Model.Server
@@ -128,6 +129,10 @@ structure State where
   evs : List EvRec := []
   delivs : List (String × String × Nat) := []          -- (receiver, kind, id)
   stamps : List ((Nat × Nat) × Nat) := []               -- (client, id) ↦ stamp on the wire
+  mutSent : List ((Nat × Nat) × List Nat) := []         -- (client, tick) ↦ indices of the mutate messages sent for that tick (tracking on)
+  mutAcked : List (Nat × Nat) := []                     -- (client, index) acknowledged = applied by the client, this session
+  mtrSeen : List (Nat × Nat) := []                      -- (client, tick) reported as fully received, this session
+  mutDelivered : List (Nat × Nat) := []                 -- (client, index) of mutate messages delivered to the client, this session
   lastUpdSent : List (Nat × Nat) := []                  -- client ↦ tick of the last update message sent to it this session
   required : List ((Nat × Nat) × Nat) := []             -- (client, id) ↦ that tick when the event was sent
   sessionStart : List (Nat × Nat) := []                 -- client ↦ op index of its connect
@@ -724,9 +729,10 @@ def toModelUpdate (st : State) (c : Nat) (u : Wire.UpdateMsg) : Option Srv.Updat
 def toModelMutate (st : State) (m : Wire.MutateMsg) : Option Cli.Mutate := do
   let ents ← m.ents.mapM fun ch => do
     some ({ ent := (← lookupBits st ch.ent), comps := toModelComps st ch.comps } : Srv.MsgEnt)
-  some { updateTick := m.updateTick, tick := m.tick, index := m.index, ents := ents }
+  some { updateTick := m.updateTick, tick := m.tick, index := m.index, ents := ents, count := m.count }
 
-def getCli (st : State) (c : Nat) : Cli.Client := (st.clis.lookup c).getD {}
+def getCli (st : State) (c : Nat) : Cli.Client :=
+  (st.clis.lookup c).getD { mutTicks := if st.track then some MutateTicks.default else none }
 def setCli (st : State) (c : Nat) (x : Cli.Client) : State := { st with clis := (c, x) :: st.clis.filter (·.1 ≠ c) }
 def getInbox (st : State) (c : Nat) : List Srv.Update × List Cli.Mutate := (st.inbox.lookup c).getD ([], [])
 def setInbox (st : State) (c : Nat) (x : List Srv.Update × List Cli.Mutate) : State :=
@@ -833,7 +839,15 @@ def cliStep (st : State) (inp : List String) (obs : List String) : State × List
         let v1 := if realC = modelC then [] else [Verdict.mismatch "CLI" s!"client {c}: entities impl {realC} model {modelC}"]
         let v2 := if upd = cl.updateTick then [] else [Verdict.mismatch "CLI" s!"client {c}: ServerUpdateTick impl {upd} model {cl.updateTick}"]
         let v3 := if realAcks = cl.acks then [] else [Verdict.mismatch "CLI" s!"client {c}: acknowledgements impl {realAcks} model {cl.acks}"]
-        let vs := v1 ++ v2 ++ v3
+        -- `MutateTickReceived` (tracking on): the model's tracker reports the same ticks
+        let realMtr := match kv ts "mtr" with
+          | some "-" => some []
+          | some l => some ((l.splitOn ",").filterMap String.toNat?)
+          | none => none
+        let v4 := match realMtr with
+          | some r => if r = cl.notified then [] else [Verdict.mismatch "CLI" s!"client {c}: ticks reported as fully received impl {r} model {cl.notified}"]
+          | none => []
+        let vs := v1 ++ v2 ++ v3 ++ v4
         ({ st with cliOff := if vs.isEmpty then st.cliOff else c :: st.cliOff }, vs)
       | _ => (st, [])
   | _ => (st, [])
@@ -1322,6 +1336,89 @@ def authLock (st : State) (inp : List String) (obs : List String) : State × Lis
     ({ st with expectDisc := [] }, vMissing ++ vExtra ++ vAuth)
   | _ => (st, [])
 
+/-! ### C12 end to end: a tick is reported as fully received once, and only when every mutate
+message the server sent for it has been applied (= acknowledged, after the F1 repair) -/
+
+def mtrOracle (st : State) (inp : List String) (obs : List String) : State × List Verdict :=
+  if !st.track then (st, []) else
+  let ok : Bool := match obs.head? with
+    | some o => (toks o).head? == some "ok"
+    | none => false
+  let forget (st : State) (c : Nat) : State :=
+    { st with mutSent := st.mutSent.filter (·.1.1 ≠ c), mutAcked := st.mutAcked.filter (·.1 ≠ c), mtrSeen := st.mtrSeen.filter (·.1 ≠ c) }
+  match inp with
+  | ["connect", c] => (match c.toNat? with | some c => if ok then forget st c else st | none => st, [])
+  | ["disconnect", c] => (match c.toNat? with | some c => if ok then forget st c else st | none => st, [])
+  | ["stop"] => if ok then ({ st with mutSent := [], mutAcked := [], mtrSeen := [] }, []) else (st, [])
+  | "sframe" :: _ =>
+    let st := (discsOf obs).foldl (fun st d => match d with | some c => forget st c | none => st) st
+    let st := obs.foldl (fun (st : State) o =>
+      let ts := toks o
+      if ts.head? ≠ some "sent" then st else
+      match kvNat ts "c", kvNat ts "ch", kvHex ts "hex" with
+      | some c, some 1, some bs => (match decodeMutate st.track bs with
+        | .ok m =>
+          let cur := (st.mutSent.lookup (c, m.tick)).getD []
+          { st with mutSent := ((c, m.tick), cur ++ [m.index]) :: st.mutSent.filter (·.1 ≠ (c, m.tick)) }
+        | _ => st)
+      | _, _, _ => st) st
+    (st, [])
+  | ["cframe", c] =>
+    match c.toNat?, obs.getLast?.map toks with
+    | some c, some ("cli" :: ts) =>
+      let acks := obs.flatMap fun o =>
+        let t := toks o
+        if t.head? = some "csent" && kvNat t "ch" = some 0 then (Wire.decodeAcks ((kvHex t "hex").getD [])) else []
+      let st := { st with mutAcked := acks.map (fun i => (c, i)) ++ st.mutAcked }
+      let reported := match kv ts "mtr" with
+        | some "-" => []
+        | some l => (l.splitOn ",").filterMap String.toNat?
+        | none => []
+      let (st, vs) := reported.foldl (fun (acc : State × List Verdict) t =>
+        let st := acc.1
+        let vDup := if st.mtrSeen.contains (c, t) then
+          [Verdict.oracle "C12" s!"client {c}: tick {t} is reported as fully received a second time"] else []
+        let sent := (st.mutSent.lookup (c, t)).getD []
+        let missing := sent.filter fun i => !st.mutAcked.contains (c, i)
+        let vEarly := if sent.isEmpty then
+            [Verdict.oracle "C12" s!"client {c}: tick {t} is reported as fully received, but the server sent it no mutate message for that tick"]
+          else if missing.isEmpty then [] else
+            [Verdict.oracle "C12" s!"client {c}: tick {t} is reported as fully received while its mutate messages {missing} (of {sent}) have not been applied"]
+        ({ st with mtrSeen := (c, t) :: st.mtrSeen }, acc.2 ++ vDup ++ vEarly)) (st, [])
+      (st, vs)
+    | _, _ => (st, [])
+  | _ => (st, [])
+
+/-! ### C09: nothing of an earlier session is acted upon — a client acknowledges only mutate
+messages it received in the current session -/
+
+def sessionOracle (st : State) (inp : List String) (obs : List String) : State × List Verdict :=
+  let ok : Bool := match obs.head? with
+    | some o => (toks o).head? == some "ok"
+    | none => false
+  match inp with
+  | ["connect", c] => (match c.toNat? with
+      | some c => if ok then { st with mutDelivered := st.mutDelivered.filter (·.1 ≠ c) } else st
+      | none => st, [])
+  | ["deliver", c, "s2c", "1", _] =>
+    match c.toNat?, obs.head?.map toks with
+    | some c, some ("ok" :: ts) =>
+      (match (kvHex ts "hex").map (decodeMutate st.track) with
+       | some (.ok m) => ({ st with mutDelivered := (c, m.index) :: st.mutDelivered }, [])
+       | _ => (st, []))
+    | _, _ => (st, [])
+  | ["cframe", c] =>
+    match c.toNat? with
+    | some c =>
+      let acks := obs.flatMap fun o =>
+        let t := toks o
+        if t.head? = some "csent" && kvNat t "ch" = some 0 then (Wire.decodeAcks ((kvHex t "hex").getD [])) else []
+      let stale := acks.filter fun i => !st.mutDelivered.contains (c, i)
+      (st, if stale.isEmpty then [] else
+        [Verdict.oracle "C09" s!"client {c} acknowledges mutate messages {stale} that were not delivered to it in this session: a message buffered in an earlier session survived the disconnect"])
+    | none => (st, [])
+  | _ => (st, [])
+
 def bump (st : State) (k : String) : State := { st with stats := k :: st.stats }
 
 /-! ### injected bytes (C06): what the server-side logic observes, panics, allocations -/
@@ -1605,6 +1702,8 @@ def handle (st : State) (inp : List String) (obs : List String) : State × List 
   let (st, v5) := evtLock st inp obs
   let (st, v6) := junkLock st inp obs
   let (st, v8) := authLock st inp obs
+  let (st, v9) := mtrOracle st inp obs
+  let (st, v10) := sessionOracle st inp obs
   let (st, v2) := handleOracles st inp obs
   -- C06: after injected bytes the server must keep serving the other clients correctly
   let v7 := if !st.junkCase then [] else (v2 ++ v1 ++ v3).filterMap fun v => match v with
@@ -1612,7 +1711,7 @@ def handle (st : State) (inp : List String) (obs : List String) : State × List 
         some (Verdict.oracle "C06" s!"after injected bytes: {d}") else none
     | .mismatch p d => if p = "SRV" || p = "CLI" then some (Verdict.mismatch "C06" s!"after injected bytes: {d}") else none
     | _ => none
-  (st, v1 ++ v3 ++ v4 ++ v5 ++ v6 ++ v8 ++ v2 ++ v7)
+  (st, v1 ++ v3 ++ v4 ++ v5 ++ v6 ++ v8 ++ v9 ++ v10 ++ v2 ++ v7)
 
 def init (hdr : List String) : State :=
   { whitelist := kv hdr "policy" = some "white", track := kv hdr "track" = some "1",
